@@ -305,3 +305,122 @@ func RCiFlag(c *core.Ctx) {
 		c.Anchor("LiteralAfterLoop literals with a String")
 	}
 }
+
+// ---------------------------------------------------------------------------
+// R-BMDIR: the Boyer-Moore tables are built in the direction of the search.
+// newBmPrefix serves both directions with one body: `last`, `beforefirst` and
+// `bump` are set from the direction once and every walk over the pattern moves
+// by bump.  A walk with a constant step computes, for the other direction, the
+// tables of the mirrored search (rightmost instead of leftmost occurrence) and
+// the scanner then shifts too far.
+// ---------------------------------------------------------------------------
+
+func RBmDir(c *core.Ctx) {
+	c.Rule("R-BMDIR", "in newBmPrefix every variable that indexes b.pattern is only ever moved by the direction step (± bump, the variable assigned +1 / -1 in the two arms of the direction test) or assigned from last / another such variable, never incremented or decremented by a constant", 1)
+	p := c.P
+	syn := p.Pkg("syntax")
+	info := syn.TypesInfo
+	fd, _ := p.DeclOf(p.LookupFunc("syntax", "newBmPrefix"))
+	patF := p.LookupField("syntax", "BmPrefix", "pattern")
+	if fd == nil || patF == nil {
+		c.Anchor("syntax.newBmPrefix / BmPrefix.pattern")
+		return
+	}
+	c.Visit("syntax.newBmPrefix")
+	// index variables of b.pattern
+	idxVars := map[types.Object]bool{}
+	ast.Inspect(fd.Body, func(x ast.Node) bool {
+		if ie, ok := x.(*ast.IndexExpr); ok && core.FieldOf(info, ie.X) == patF {
+			if id, ok := ast.Unparen(ie.Index).(*ast.Ident); ok {
+				if obj := info.ObjectOf(id); obj != nil {
+					idxVars[obj] = true
+				}
+			}
+		}
+		return true
+	})
+	// an element-wise in-place map over the whole pattern (`for i := …; i++ { b.pattern[i] = f(b.pattern[i]) }`)
+	// has no direction: its loop variable is not a walk of the algorithm
+	ast.Inspect(fd.Body, func(x ast.Node) bool {
+		fs, ok := x.(*ast.ForStmt)
+		if !ok || fs.Init == nil || len(fs.Body.List) != 1 {
+			return true
+		}
+		init, ok := fs.Init.(*ast.AssignStmt)
+		if !ok || len(init.Lhs) != 1 {
+			return true
+		}
+		iv, ok := init.Lhs[0].(*ast.Ident)
+		if !ok {
+			return true
+		}
+		as, ok := fs.Body.List[0].(*ast.AssignStmt)
+		if !ok || len(as.Lhs) != 1 {
+			return true
+		}
+		if ie, ok := as.Lhs[0].(*ast.IndexExpr); ok && core.FieldOf(info, ie.X) == patF {
+			if id, ok := ast.Unparen(ie.Index).(*ast.Ident); ok && info.ObjectOf(id) == info.ObjectOf(iv) {
+				delete(idxVars, info.ObjectOf(iv))
+			}
+		}
+		return true
+	})
+	if len(idxVars) == 0 {
+		c.Anchor("variables indexing b.pattern in newBmPrefix")
+		return
+	}
+	n := 0
+	report := func(pos token.Pos, v types.Object, how string) {
+		n++
+		c.Bad(fmt.Sprintf("newBmPrefix / %s walks the pattern in the direction of the search (#%d)", v.Name(), n), pos,
+			"%s is %s: for the other direction this builds the tables of the mirrored search (the occurrence nearest the wrong end), and the scanner skips real matches", v.Name(), how)
+	}
+	ok := 0
+	ast.Inspect(fd.Body, func(x ast.Node) bool {
+		switch s := x.(type) {
+		case *ast.IncDecStmt:
+			if id, isId := ast.Unparen(s.X).(*ast.Ident); isId && idxVars[info.ObjectOf(id)] {
+				report(s.Pos(), info.ObjectOf(id), "stepped with "+s.Tok.String())
+			}
+		case *ast.AssignStmt:
+			if len(s.Lhs) != 1 || len(s.Rhs) != 1 {
+				return true
+			}
+			id, isId := ast.Unparen(s.Lhs[0]).(*ast.Ident)
+			if !isId || !idxVars[info.ObjectOf(id)] {
+				return true
+			}
+			switch s.Tok {
+			case token.ADD_ASSIGN, token.SUB_ASSIGN:
+				if _, isC := core.ConstInt(info, s.Rhs[0]); isC {
+					report(s.Pos(), info.ObjectOf(id), "moved by a constant")
+				} else {
+					ok++
+				}
+			case token.ASSIGN, token.DEFINE:
+				// v = len(...) - 1 / v = 0: a fixed end instead of last / beforefirst
+				fixed := false
+				ast.Inspect(s.Rhs[0], func(y ast.Node) bool {
+					if call, isCall := y.(*ast.CallExpr); isCall {
+						if f, isF := call.Fun.(*ast.Ident); isF && f.Name == "len" {
+							fixed = true
+						}
+					}
+					return true
+				})
+				if _, isC := core.ConstInt(info, s.Rhs[0]); isC {
+					fixed = true
+				}
+				if fixed {
+					report(s.Pos(), info.ObjectOf(id), "started at a fixed end ("+types.ExprString(s.Rhs[0])+") instead of the direction-dependent one")
+				} else {
+					ok++
+				}
+			}
+		}
+		return true
+	})
+	if n == 0 {
+		c.OK("newBmPrefix / every walk over the pattern follows the search direction", fd.Pos(), "%d index variables, %d direction-relative updates, no constant step", len(idxVars), ok)
+	}
+}
